@@ -485,6 +485,15 @@ pub fn call_sil<F: linfa::Float>(form: usize, rec: Array2<F>, l: &[usize]) -> Re
     }
 }
 
+/// `silhouette_score` of a dataset whose `CountedTargets` were counted on `cached` and whose targets
+/// were then overwritten with `l` (the counts are not refreshed): stale cluster sizes, labels of the
+/// data that the cache does not know (`get_mut(..).unwrap()` panics), cached labels without samples
+pub fn call_sil_stale(rec: Array2<f64>, cached: &[usize], l: &[usize]) -> Res<f64> {
+    let mut d = DatasetBase::new(rec, CountedTargets::new(Array1::from(cached.to_vec())));
+    d.as_targets_mut().assign(&Array1::from(l.to_vec()));
+    d.silhouette_score()
+}
+
 // ------------------------------------------------------------------ Pearson
 
 /// soft observation (distribution key only): are the p-values of 3 resamplings frequencies k/3?
